@@ -6,9 +6,9 @@ cd /repo || exit 2
 if [ -n "$(git status --porcelain -uno)" ]; then echo "repo dirty"; exit 2; fi
 git apply --check "$d/patch.diff" || { echo "PATCH DOES NOT APPLY"; exit 3; }
 git apply "$d/patch.diff"
-PYTHONPATH=/repo PYTHONDONTWRITEBYTECODE=1 timeout 300 /venv/bin/python -W ignore "$d/demo.py" >/tmp/demo_out.txt 2>&1; echo "demo with patch: exit $?"
+PYTHONPATH=/verif:/repo PYTHONDONTWRITEBYTECODE=1 timeout 300 /venv/bin/python -W ignore /verif/bin/run_demo.py "$d/demo.py" >/tmp/demo_out.txt 2>&1; echo "demo with patch: exit $?"
 (cd /verif && timeout 3000 bin/check $pid $tier > /tmp/check_out.txt 2>&1; echo "check exit $?")
 grep -E "VIOLATION|KNOWN-FINDING|proofs:|correspondence:|->" /tmp/check_out.txt | cut -c1-300 | head -12
 git checkout -- . 
-PYTHONPATH=/repo PYTHONDONTWRITEBYTECODE=1 timeout 300 /venv/bin/python -W ignore "$d/demo.py" >/tmp/demo_out2.txt 2>&1; echo "demo pristine: exit $?"
+PYTHONPATH=/verif:/repo PYTHONDONTWRITEBYTECODE=1 timeout 300 /venv/bin/python -W ignore /verif/bin/run_demo.py "$d/demo.py" >/tmp/demo_out2.txt 2>&1; echo "demo pristine: exit $?"
 git status --porcelain -uno
